@@ -25,6 +25,7 @@ type wkTask struct {
 	Family   string
 	From, To int
 	Race     bool
+	Prefix   []string // command prefix, e.g. taskset -c 0,1 (changes runtime.NumCPU of the worker)
 }
 
 // WorkerMsg is one line of worker output.
@@ -127,7 +128,8 @@ func runWorkerPool(r *Run, subcmd string, tasks []wkTask, nproc int, extraEnv []
 				if t.Race {
 					bin = filepath.Join(binDir(), "verifmon-race")
 				}
-				cmd := exec.Command(bin, subcmd, r.Tier, strconv.FormatUint(r.Seed, 10), t.Family, strconv.Itoa(t.From), strconv.Itoa(t.To), wdir)
+				argv := append(append([]string{}, t.Prefix...), bin, subcmd, r.Tier, strconv.FormatUint(r.Seed, 10), t.Family, strconv.Itoa(t.From), strconv.Itoa(t.To), wdir)
+				cmd := exec.Command(argv[0], argv[1:]...)
 				racelog := filepath.Join(scratch, fmt.Sprintf("race-%d", i))
 				cmd.Env = append(os.Environ(), "GORACE=halt_on_error=0 log_path="+racelog, "GOTRACEBACK=all")
 				cmd.Env = append(cmd.Env, extraEnv...)
